@@ -355,6 +355,10 @@ def run(chk: Check):
     rule_p3(chk, ix, ir)
     rule_p4(chk, ix, tr.interp)
     rule_p5(chk, ix)
+    from .firstpass import rule_first_pass_raisers
+    rule_first_pass_raisers(chk, ir)
+    from .firstpass import rule_no_token_rewrite
+    rule_no_token_rewrite(chk, ir, ix)
     from .c02 import rule_path_literal_gate
     rule_path_literal_gate(chk)  # every quoted word of a command is first tried as a string literal: the p-prefix gate runs on it
     from .c01 import rule_result_span
